@@ -21,8 +21,8 @@ Judge(c) ==
       soft == SoftMsg(c.proto, c.type, c.payload)
   IN IF ~c.obs.ok
      THEN \* a payload may be rejected (C05), except the ones made of documented values only, whose
-          \* announced stride (>= the known layout) has to be honoured
-          IF c.must THEN "StrideNotHonoured" ELSE "rejected"
+          \* announced stride (>= the known layout) and record count have to be honoured
+          IF c.must THEN "DocumentedFrameRejected" ELSE "rejected"
      ELSE IF MatchMsg(ref, soft, c.obs.msg) THEN "ok"
      ELSE IF soft THEN "DefinedValueForNA" ELSE "Misdecoded"
 
